@@ -59,6 +59,15 @@ def build(run):
     pen = Snippet(ssrc.item('enum', 'DataTypePrefix'), 'enum DataTypePrefix')
     rules.erase_enum_payloads(pen, set(), derives='#[derive(Clone, Copy, PartialEq, Eq)]\n#[repr(u8)]\n')
     unit.add(pen)
+    from units.C14.unit import keep_struct_fields
+    psrc = Source(run.repo, 'crates/erg_common/python_util.rs')
+    pv = Snippet(psrc.item('struct', 'PythonVersion'), 'struct PythonVersion')
+    keep_struct_fields(pv, {'u8', 'Option<u8>'}, 'PythonVersion')
+    unit.add(pv)
+    csrc = Source(run.repo, 'crates/erg_compiler/ty/codeobj.rs')
+    co = Snippet(csrc.item('struct', 'CodeObj'), 'struct CodeObj')
+    keep_struct_fields(co, {'u32', 'Vec<u8>', 'Vec<ValueObj>', 'Vec<Str>', 'Str'}, 'CodeObj')
+    unit.add(co)
     unit.raw("impl Deserializer {\n")
 
     take = Snippet(src.fn('take', impl=r'Deserializer'), 'Deserializer::take')
@@ -116,11 +125,32 @@ def build(run):
         %s,
         res is Ok ==> final(v)@.len() < old(v)@.len(),   // every value takes at least its type byte: no progress-free success
         old(v)@.len() == 0 ==> res is Err,               // an empty input is reported, not a crash
-    decreases old(v)@.len(),""" % LEN_POST)
+    decreases old(v)@.len(), 1int,""" % LEN_POST)
     dc.loop_spec(0, "invariant v@.len() < old(v)@.len(),")
     dc.loop_spec(1, "invariant v@.len() < old(v)@.len(),")
     unit.add(dc)
+    # thin wrappers around deserialize_const (arms binding erased payloads are R2-erased: their result is unspecified, which is enough for totality)
+    for f in ('deserialize_const_vec', 'deserialize_str_vec', 'deserialize_str'):
+        w = Snippet(src.fn(f, impl=r'Deserializer'), 'Deserializer::' + f)
+        reader_rewrites(w)
+        rules.diagnostics(w)
+        w.erase_arms('R2', lambda pat: re.search(r'ValueObj::(List|Tuple|Str)\s*\(\s*\w', pat) is not None)
+        w.contract("""ensures %s,
+        res is Ok ==> final(v)@.len() < old(v)@.len(),
+    decreases old(v)@.len(), 2int,""" % LEN_POST)
+        unit.add(w)
     unit.raw("}\n")
+    unit.raw("impl CodeObj {\n")
+    fb = Snippet(csrc.fn('from_bytes', impl=r'CodeObj'), 'CodeObj::from_bytes')
+    reader_rewrites(fb)
+    fb.rw('R4', r'v\.first\(\) != Some\(&\((DataTypePrefix::Code as u8)\)\)', r'w_first_ne(v, \1)', expect=1)
+    fb.rw('R4', r'python_ver\.minor >= Some\((\d+)\)', r'w_minor_ge(python_ver.minor, \1)')
+    fb.contract("""ensures %s,
+        res is Ok ==> final(v)@.len() < old(v)@.len(),   // what the Code arm of deserialize_const relies on
+    decreases old(v)@.len(), 0int,""" % LEN_POST)
+    unit.add(fb)
+    unit.raw("}\n")
+    run.sample({"function": "CodeObj::from_bytes", "ensures": "total on every byte vector (a foreign first byte or short input is reported as a broken file), never grows the input, terminates (mutual recursion with deserialize_const proved with a lexicographic measure)"})
     unit.raw("""
 // @trusted: i32::unsigned_abs
 #[verifier::external_body]
